@@ -350,6 +350,10 @@ Session::ConsumeResult Session::consume(OutputStream& out)
     //  - Consumer finds queue is closed, removes it -> data loss
     const bool isClosed = (channelptr.use_count() == 1);
 
+    // use_count() is a relaxed load: without this fence, nothing orders
+    // the poll below after the last write of the writer that dropped its reference
+    std::atomic_thread_fence(std::memory_order_acquire);
+
     Channel& ch = *channelptr;
 
     detail::QueueReader reader(ch.queue());
